@@ -244,7 +244,8 @@ def d1_kinds(chk, F):
     else:
         chk.fail("C19.D1-kinds", "every core section|loop head", f"{g.file}:{g.line}", f"expected one loop over recipe.sections in into_simple_recipe, found {len(heads)}")
     blocks = [(b, t) for b, t in calls_to(g, "Vec::push") if _recv_var(g, t["args"][0]) == "blocks"]
-    kinds = sorted(re.search(r"Block::(\w+)", full(arg_expr(g, t, 1))).group(1) for b, t in blocks if re.search(r"Block::(\w+)", full(arg_expr(g, t, 1))))
+    # one push per arm, or a single push of `match content { Step => StepBlock(..), Text => NoteBlock(..) }`
+    kinds = sorted({k for b, t in blocks for k in re.findall(r"Block::(\w+Block)\b", full(arg_expr(g, t, 1)))})
     chk.expect(kinds == ["NoteBlock", "StepBlock"], "C19.D1-kinds", "blocks", f"{g.file}:{g.line}", f"blocks pushed: {kinds}", sample="Step ↦ StepBlock, Text ↦ NoteBlock")
     for ff, i, s, d in aggregates(F, g.key, "model::BlockNote"):
         t = full(resolve(ff, d["text"]))
